@@ -258,11 +258,10 @@ theorem visualizeDendrogram_counts (ν : Nums) (a : DendroArgs) (d : Drawing) (h
     simpa [expectedDendrogram, hn, hlen, Summary.add, plainOf_displayed, Function.comp_def] using this
 
 /-- the inputs of `visualize_graph` the count statement is about: a membership matrix whose column indices are within
-    its shape, non-negative stored weights, a canvas with a non-zero dimension and a non-zero scale, node indices of
-    the stored entries within the layout -/
+    its shape, a canvas with a non-zero dimension and a non-zero scale, node indices of the stored entries within the
+    layout (weights of any sign) -/
 structure GraphDomain (a : GraphArgs) : Prop where
   probs : ProbsOk a.probs
-  weights : NonNeg a.entries
   canvas : truthy a.width = true ∨ truthy a.height = true
   scale : a.lay.scale ≠ 0
   indices : ∀ e ∈ a.entries, e.1 < a.pos.length ∧ e.2.1 < a.pos.length
@@ -279,11 +278,11 @@ structure GraphDomain (a : GraphArgs) : Prop where
 theorem visualizeGraph_counts (ν : Nums) (a : GraphArgs) (d : Drawing) (hν : SafeNums ν) (hsort : SortOk ν)
     (ha : SafeGraphArgs a) (hd : GraphDomain a) (h : visualizeGraph ν a = .ok d) :
     docMeets (render d.svg) (expectedGraph a) = true :=
-  visualizeGraph_docMeets ν a d hν hsort ha.nodeColor ha.edgeColor ha.labelColors hd.probs hd.weights hd.canvas hd.scale
+  visualizeGraph_docMeets ν a d hν hsort ha.nodeColor ha.edgeColor ha.labelColors hd.probs hd.canvas hd.scale
     hd.indices h
 
 example : GraphDomain exampleGraph :=
-  ⟨fun p hp => by simp [exampleGraph] at hp, by intro e he; simp [exampleGraph] at he; rcases he with h | h | h <;> subst h <;> decide,
+  ⟨fun p hp => by simp [exampleGraph] at hp,
    Or.inl (by decide), by decide,
    by intro e he; simp [exampleGraph] at he; rcases he with h | h | h <;> subst h <;> decide⟩
 
@@ -296,22 +295,23 @@ theorem rescale_keeps_positions_apart (a : GraphArgs) (pos : List (Rat × Rat)) 
       a.pos.getD i (0, 0) = a.pos.getD j (0, 0) :=
   finalPos_coincide a pos h hnd hs i j hi hj
 
-def negativeWeightGraph : GraphArgs :=
+/-- a signed graph: one stored entry has a negative weight (before the repair b9a209f6 the first edge was not drawn:
+    `adjacency > 0` dropped it and `edge_order` was numbered over the positive entries only) -/
+def signedGraph : GraphArgs :=
   { n := 3, entries := [(0, 1, -1), (0, 2, 1)], pos := [(0, 0), (1, 0), (2, 1)], directed := some false }
 
-/-- With a negative stored weight the count statement is false for the code as it is: `adjacency > 0` drops the
-    entry, `edge_order` is numbered over the positive entries only, and one displayed edge is not drawn
-    (two stored edges, one path). Negative weights are outside the domain of the property (`GraphDomain.weights`). -/
-theorem negative_weight_loses_an_edge :
-    (match visualizeGraph νhash negativeWeightGraph with
-     | .ok d => (observed d.svg).edgePaths
-     | .error _ => 0) = 1 := by decide +kernel
+example : GraphDomain signedGraph :=
+  ⟨fun p hp => by simp [signedGraph] at hp, Or.inl (by decide), by decide,
+   by intro e he; simp [signedGraph] at he; rcases he with h | h <;> subst h <;> decide⟩
+
+example : (match visualizeGraph νhash signedGraph with
+    | .ok d => (observed d.svg).edgePaths
+    | .error _ => 0) = 2 := by decide +kernel
 
 /-- the inputs of `visualize_bigraph` the count statement is about -/
 structure BigraphDomain (a : BigraphArgs) : Prop where
   probsRow : ProbsOk a.probsRow
   probsCol : ProbsOk a.probsCol
-  weights : NonNeg a.entries
 
 /-- `visualize_bigraph`: whenever it returns, the returned string — read back by the recogniser — is a well-formed
     document with root `svg` that contains one node shape per row and per column (circle, or one sector per label for
@@ -320,8 +320,7 @@ structure BigraphDomain (a : BigraphArgs) : Prop where
 theorem visualizeBigraph_counts (ν : Nums) (a : BigraphArgs) (d : Drawing) (hν : SafeNums ν) (hsort : SortOk ν)
     (ha : SafeBigraphArgs a) (hd : BigraphDomain a) (h : visualizeBigraph ν a = .ok d) :
     docMeets (render d.svg) (expectedBigraph a) = true :=
-  visualizeBigraph_docMeets ν a d hν hsort ha.colorRow ha.colorCol ha.edgeColor ha.labelColors hd.probsRow hd.probsCol
-    hd.weights h
+  visualizeBigraph_docMeets ν a d hν hsort ha.colorRow ha.colorCol ha.edgeColor ha.labelColors hd.probsRow hd.probsCol h
 
 example : BigraphDomain exampleBigraph :=
   ⟨fun p hp => by simp [exampleBigraph] at hp,
@@ -330,8 +329,7 @@ example : BigraphDomain exampleBigraph :=
       subst hp
       simp at hrow
       rcases hrow with h | h <;> subst h <;> simp at he
-      rcases he with h | h <;> subst h <;> decide,
-   by intro e he; simp [exampleBigraph] at he; rcases he with h | h <;> subst h <;> decide⟩
+      rcases he with h | h <;> subst h <;> decide⟩
 
 /-! ## ★ `file_same` : the string written is the string returned -/
 
